@@ -35,7 +35,18 @@ ASSUMPTIONS = [
     "pdr.rs (frames with bookkeeping lists and asserted clauses, get_bad_cube, rel_ind + fix_gen_cube, block_cube, propagate, main loop, BMC "
     "fallback) over a solver oracle; the model is hand-written and tied to the code by event-by-event replay of the real solver's answers, "
     "not by a proof about the Rust source; the SMT encoding and the solver are abstracted into the oracle hypothesis (truthful answers)",
-    "termination of block_cube's loop and of the main loop is not proved (fuel-conditional); the BMC fallback is an oracle (C02/C03)",
+    "termination is proved FOR THE MODEL (Proofs/PdrTermination*.v), for a finite listed state space and a truthful oracle that never answers "
+    "unknown / never fails: C10_pdr_block_loop_terminates (block_cube's obligation loop, measure (2N+3)*sum_k|F_k| + |queue| + 2*[frame of the "
+    "smallest obligation if its state is still in its frame, else N+1]), C10_pdr_model_terminates(_sys) (every fuel above the computed bounds "
+    "pdr_fuel_bound / pdr_block_fuel_bound gives a verdict: not Fuel, not Err, not a panic), C10_unknown_only_at_frame_limit(_sys) (Unknown only "
+    "beyond MAX_FRAMES = 1000 frames, which needs >= 1000 state valuations because an unsuccessful propagation leaves a strictly increasing chain "
+    "of frames, or when the BMC ORACLE gives up although a counterexample exists), C10_pdr_model_total_small(_sys) (2^bits + 1 <= 1000: Success "
+    "and safe, or Fail and unsafe), C10_pdr_model_fail_complete_sys (any number of state bits: a bad state reachable in <= 1000 steps gives Fail). NOT covered: systems with >= 1000 state valuations may legitimately end in Unknown at the frame limit "
+    "(C10_pdr_model_deep_unknown_sys: when every counterexample is longer than 1000 steps the model PROVABLY answers Unknown, for every truthful "
+    "oracle; C10_pdr_model_unknown_on_deep_counter: the 11-bit counter from 0 with bad = (c == 1500). The property's 'terminates with one of "
+    "these two answers' therefore holds only below the limit. The real pdr.rs on that counter with z3 did not return within 40 minutes - about "
+    "k^3/3 queries for k frames -; a copy with MAX_FRAMES = 20 answers Unknown from depth 21 on: candidate finding, not in known_findings.txt); the BMC "
+    "fallback is an oracle (C02/C03); the real solver's termination is outside the model",
     "solver faults: the model's oracle may answer AErr / AUnknown at any query, any declare/assert/define command may fail (cmd_fail), "
     "the BMC oracle may fail (C15_pdr_model_propagates / _unknown in Props/C15.v); the harness injects faults only at response-bearing "
     "calls of the SolverContext, failures of assert/declare commands are covered by the proof about the model only",
@@ -77,7 +88,15 @@ MANIFEST = dict(
     level_text=("Theorems (Coq): C10_pdr_model_success_sound_sys - for every system of the class fin_class and every truthful solver oracle, "
                 "Success of the concrete model of pdr.rs (Model/PdrImpl.v) implies that no bad state is reachable at any depth "
                 "(bad_reachable of Spec/System.v); C10_pdr_model_fail_real / _definite / _unknown_only - Fail only with a real counterexample "
-                "within the frame bound, never Err/panic under a truthful total solver (termination fuel-conditional); "
+                "within the frame bound, never Err/panic under a truthful total solver; "
+                "TERMINATION of the model: C10_pdr_block_loop_terminates, C10_pdr_model_terminates(_sys) - over a finite state space every fuel "
+                "above computed bounds yields a verdict, whichever models and unsat cores the oracle returns, generalisation on or off; "
+                "C10_unknown_only_at_frame_limit(_sys) - Unknown only beyond MAX_FRAMES = 1000 frames (impossible with fewer than 1000 state "
+                "valuations: frames form a strictly increasing chain) or when the BMC oracle gives up; C10_pdr_model_total_small(_sys), "
+                "C10_pdr_enum_total_small_sys - for 2^bits + 1 <= 1000 the answer is Success and the system is safe, or Fail and it is unsafe; "
+                "C10_pdr_model_fail_complete_sys - for any number of state bits a counterexample of at most 1000 steps yields Fail; "
+                "C10_pdr_model_deep_unknown_sys / C10_pdr_model_unknown_on_deep_counter - when every counterexample is longer than 1000 steps "
+                "(11-bit counter, bad at 1500) the model answers Unknown: the limit of the property; "
                 "C10_pdr_answer_check_exact - the executable test answer_ok decides the oracle hypothesis for one answer (the driver applies "
                 "it to every recorded answer of the real solver on small systems); Props/C15.v: C15_pdr_model_propagates / _unknown - a failing "
                 "solver call ends the model's run with that error, an unknown answer is never the basis of a verdict. "
@@ -88,5 +107,5 @@ MANIFEST = dict(
                 "obligation chains are real executions; C10_ic3_block_sem: blocking for any frame representation, the side condition of the "
                 "proposed repair). Tie to /repo: the real patronus::mc::pdr is run against z3 and cvc5 (several seeds, "
                 "generalisation on/off) on generated systems and its verdict and witnesses are compared with reach_spec on every run."),
-    level_note="Trusted: Coq kernel; the solver, the SMT encoding behind each query and the BMC fallback are ORACLES (assumed truthful in the theorems; recorded answers are replayed in the tie); termination of block_cube's loop and of the main loop is fuel-conditional. Repaired in /repo through this check: PDR unsound / Err when an init expression reads an input (a4b99b1). Open finding: Err inherited from the encoding on cyclic init dependencies.",
+    level_note="Trusted: Coq kernel; the solver, the SMT encoding behind each query and the BMC fallback are ORACLES (assumed truthful in the theorems; recorded answers are replayed in the tie); termination is proved for the model over a finite state space (Unknown remains possible at the 1000-frame limit for systems with >= 1000 state valuations). Repaired in /repo through this check: PDR unsound / Err when an init expression reads an input (a4b99b1). Open finding: Err inherited from the encoding on cyclic init dependencies.",
 )
